@@ -278,6 +278,48 @@ def reuse(ctx, files):
                                       "a response object that has answered a request answers the next one differently from a fresh one (%s)" % (", ".join(diff) or "status / body"))
                         break
                 ctx.nontriv(("reuse", size, iface, order))
+            if iface == "wsgi":
+                continue
+            # ... and two requests in flight on it at the same time (one event loop): each still gets its own framing
+            import asyncio
+            from baize.asgi import FileResponse as AFR
+            for i, j in itertools.permutations(range(len(reqs)), 2):
+                shared = AFR(path, content_type=CT, chunk_size=chunk, stat_result=st)
+                ext = {"http.response.zerocopysend": {}} if iface == "zerocopy" else None
+                outs = []
+
+                async def one(k):
+                    method, specs = reqs[k]
+                    c = {"size": size, "chunk": chunk, "iface": iface, "method": method, "specs": specs, "hasRange": bool(specs), "ifr": "absent"}
+                    scope = servers.make_scope(servers.Req(method=method, path="/f", headers=headers_of(c, path, st)), ext)
+                    got = {"start": None, "len": 0}
+
+                    async def receive():
+                        await asyncio.Event().wait()
+
+                    async def send(m):
+                        await asyncio.sleep(0)
+                        if m["type"] == "http.response.start":
+                            got["start"] = (m["status"], sorted((a.decode("latin-1"), b.decode("latin-1")) for a, b in m["headers"]))
+                        elif m["type"] == "http.response.zerocopysend":
+                            got["len"] += m.get("count") or 0
+                        else:
+                            got["len"] += len(m.get("body", b""))
+                        await asyncio.sleep(0)
+                    await shared(scope, receive, send)
+                    outs.append((k, c, got))
+                servers.loop().run_until_complete(asyncio.gather(one(i), one(j)))
+                ctx.count()
+                for k, c, got in outs:
+                    fresh = execute(c, files)
+                    norm = lambda hs: sorted((a, b if "boundary=" not in b else "multipart/byteranges; boundary=*") for a, b in hs)  # noqa
+                    if got["start"] is None or got["start"][0] != fresh["status"] or norm(got["start"][1]) != norm(fresh["hdr"].items()):
+                        ctx.violation({"size": size, "chunk": chunk, "iface": iface, "two_requests_in_flight_on_one_response_object":
+                                       ["%s %s" % (reqs[x][0], c03.render([dict(y) for y in reqs[x][1]], 0) if reqs[x][1] else "-") for x in (i, j)]},
+                                      {"status": fresh["status"], "headers": fresh["hdr"]}, {"status": got["start"] and got["start"][0], "headers": got["start"] and dict(got["start"][1])},
+                                      "two requests in flight on one response object: one of them gets the framing headers of the other")
+                        break
+                ctx.nontriv(("concurrent", size, iface, i, j))
 
 
 def replay(ctx, g, files, n):
